@@ -5,6 +5,7 @@ import (
 	"go/ast"
 	"go/token"
 	"go/types"
+	"sort"
 	"strings"
 
 	"verif/checker/internal/dtab"
@@ -276,6 +277,7 @@ func CheckC17(c *Ctx) {
 	// (3) Ring index discipline
 	c.ringDiscipline(info)
 	c.ringInvariant()
+	c.treeAnswers()
 	// (4) link-write discipline of the tree (removal)
 	c.bstLinks()
 }
@@ -915,4 +917,117 @@ func identIsParam(info *types.Info, fd *ast.FuncDecl, id *ast.Ident) bool {
 		}
 	}
 	return false
+}
+
+// treeAnswers: what the tree's observers answer, read off the SSA paths of the four methods:
+// Contains is "the search found a node", Remove reports false without touching the tree when the
+// search found none and true after unlinking the node it found (with the parent the same search
+// returned), Min and Max return the value of the extreme node below the root and the zero value
+// for an empty tree. The searches and the unlinking themselves are decided by bst-agreement and
+// bst-links.
+var treeAnswerSpecs = map[string][]string{
+	"Contains": {"return !(SEARCH(param#0, param#1)#0 == nil)"},
+	"Remove": {
+		"!(SEARCH(param#0, param#1)#0 == nil); call UNLINK(param#0, SEARCH(param#0, param#1)#0, SEARCH(param#0, param#1)#1); return true",
+		"(SEARCH(param#0, param#1)#0 == nil); return false",
+	},
+	"Min": {
+		"!(load(param#0.ROOT) == nil); return load(MINFINDER(load(param#0.ROOT))#0.VALUE)",
+		"(load(param#0.ROOT) == nil); return 0",
+	},
+	"Max": {
+		"!(load(param#0.ROOT) == nil); return load(MAXFINDER(load(param#0.ROOT))#0.VALUE)",
+		"(load(param#0.ROOT) == nil); return 0",
+	},
+}
+
+// treeRoles names the unexported parts of the tree by what they are, so that renaming them
+// changes nothing: the search method (a verified (node, parent) search from the root), the
+// extreme finders (verified searches along the smaller / the larger link only), the unlinking
+// method (the other unexported method Remove calls), the root and value fields.
+func (c *Ctx) treeRoles() map[string]string {
+	roles := map[string]string{}
+	hp := c.P.Pkg("helper")
+	if hp == nil {
+		return roles
+	}
+	for _, fi := range c.P.Decls {
+		if fi.Pkg != hp || fi.Decl.Body == nil || fi.Fn.Exported() {
+			continue
+		}
+		f := c.finderOf(fi.Fn)
+		if f == nil {
+			continue
+		}
+		switch {
+		case f.startRoot && fi.Decl.Recv != nil:
+			roles["method."+fi.Fn.Name()+"("] = "SEARCH("
+		case !f.startRoot && len(f.links) == 1 && f.links[bstF.small]:
+			roles["helper."+fi.Fn.Name()+"("] = "MINFINDER("
+		case !f.startRoot && len(f.links) == 1 && f.links[bstF.large]:
+			roles["helper."+fi.Fn.Name()+"("] = "MAXFINDER("
+		}
+	}
+	if rm := c.P.Method("helper", "Bst", "Remove"); rm != nil && rm.Decl.Body != nil {
+		ast.Inspect(rm.Decl.Body, func(n ast.Node) bool {
+			call, ok := n.(*ast.CallExpr)
+			if !ok {
+				return true
+			}
+			fn := callee(hp.TypesInfo, call)
+			if fn == nil || fn.Exported() {
+				return true
+			}
+			if sig, _ := fn.Type().(*types.Signature); sig != nil && sig.Recv() != nil && sig.Results().Len() == 0 {
+				roles["method."+fn.Name()+"("] = "UNLINK("
+			}
+			return true
+		})
+	}
+	if tn, _ := hp.Types.Scope().Lookup("Bst").(*types.TypeName); tn != nil {
+		if st, ok := tn.Type().Underlying().(*types.Struct); ok {
+			for i := 0; i < st.NumFields(); i++ {
+				if isNodePtr(st.Field(i).Type()) {
+					roles["."+st.Field(i).Name()+")"] = ".ROOT)"
+				}
+			}
+		}
+	}
+	roles["."+bstF.value+")"] = ".VALUE)"
+	return roles
+}
+
+func (c *Ctx) treeAnswers() {
+	run := c.Run
+	n := 0
+	roles := c.treeRoles()
+	for _, name := range []string{"Contains", "Remove", "Min", "Max"} {
+		fi := c.P.Method("helper", "Bst", name)
+		if fi == nil {
+			run.Break("anchor missing: helper.(*Bst)." + name)
+			continue
+		}
+		fn := c.ssaFunc(fi)
+		paths, ok := ssaPaths(fn)
+		for i := range paths {
+			for from, to := range roles {
+				paths[i] = strings.ReplaceAll(paths[i], from, to)
+			}
+		}
+		sort.Strings(paths)
+		n++
+		site := "helper.(*Bst)." + name
+		want := treeAnswerSpecs[name]
+		good := ok && strings.Join(paths, " || ") == strings.Join(want, " || ")
+		run.Oblige(good)
+		if !good {
+			why := "the method has a loop (undecided, fails closed)"
+			if ok {
+				why = "its paths are {" + strings.Join(paths, " || ") + "}, specified {" + strings.Join(want, " || ") + "}"
+			}
+			c.violate("bst-answers", site, short(strings.Join(paths, " || "), 100), fi.Decl.Pos(), name+" does not answer as the multiset model requires: "+why)
+		}
+	}
+	run.Count("tree_observers", n)
+	run.Floor("tree_observers", 4)
 }
